@@ -251,6 +251,19 @@ pub fn c02_value(ops: &TypeOps, case: &Case, suffix: &[u8], rep: &mut Report, pr
 			}
 		},
 	}
+	// (c) shared byte buffer (decode_from_bytes, zero-copy for byte-buffer fields)
+	match catch(|| (d.bytes)(input.clone())) {
+		Err(p) => fail(rep, "roundtrip-panic", format!("decode_from_bytes panicked: {p}")),
+		Ok(None) => fail(rep, "roundtrip-reject:shared-buffer", "decode_from_bytes rejected the value's own encoding".into()),
+		Ok(Some((v, used))) => {
+			rep.count("shared_buffer_roundtrips");
+			if !same_val(ops, &case.val, &v) {
+				fail(rep, "roundtrip-value:shared-buffer", format!("decode_from_bytes returned a different value {}", show_val(&v)));
+			} else if used != enc.len() {
+				fail(rep, "roundtrip-consumed:shared-buffer", format!("decode_from_bytes consumed {used} bytes of a {}-byte encoding", enc.len()));
+			}
+		},
+	}
 	if rep.want_sample() && enc.len() >= 2 {
 		rep.sample(sample_json(ops, "roundtrip", &enc, &format!("suffix {} bytes", suffix.len())));
 	}
